@@ -2,6 +2,7 @@ package simhdr
 
 import (
 	"errors"
+	"sync"
 	"time"
 
 	header "github.com/celestiaorg/go-header"
@@ -17,6 +18,7 @@ type Chain struct {
 	Spacing func(h uint64) time.Duration
 	// EpochOf returns the epoch of height h (non-decreasing in h).
 	EpochOf func(h uint64) uint64
+	mu      sync.Mutex // tasks woken by channel operations may extend the chain concurrently
 	hs      []*H
 }
 
@@ -33,6 +35,8 @@ func (c *Chain) At(h uint64) *H {
 	if h < c.First {
 		return nil
 	}
+	c.mu.Lock()
+	defer c.mu.Unlock()
 	for uint64(len(c.hs)) <= h-c.First {
 		n := c.First + uint64(len(c.hs))
 		var prev []byte
@@ -47,6 +51,7 @@ func (c *Chain) At(h uint64) *H {
 		}
 		x := &H{Chain: c.ID, Ht: n, T: t, Prev: prev, Epoch: c.EpochOf(n)}
 		x.Sign()
+		x.Hash() // fill the hash cache while nobody else can see the header
 		c.hs = append(c.hs, x)
 	}
 	return c.hs[h-c.First]
